@@ -23,6 +23,7 @@ OkRep(r) == LET s == RepStep(r.ofv, r.ll, r.h)
 OkSeqNum(r) == /\ r.bytes = SeqCountBytes(r.n)                     \* encoder
                /\ r.parsed = r.n /\ r.used = Len(SeqCountBytes(r.n)) + 1     \* decoder reads it back (count bytes + modes byte)
 OkSeqParse(r) == r.parsed = SeqCountParse(r.bytes)
+OkSeqHdr(r) == LET e == SeqHdrParse(r.src) IN r.ok = e.ok /\ (r.ok => r.n = e.n /\ r.used = e.used)
 OkLit(r) == LET e == LitHeaderParse(r.bytes)
             IN /\ r.ok
                /\ r.type = e.type /\ r.regen = e.regen /\ r.comp = e.comp /\ r.streams = e.streams /\ r.used = e.bytes
@@ -58,6 +59,7 @@ Ok(r) == CASE r.k = "ll" -> OkLL(r)
            [] r.k = "rep" -> OkRep(r)
            [] r.k = "seqnum" -> OkSeqNum(r)
            [] r.k = "seqparse" -> OkSeqParse(r)
+           [] r.k = "seqhdr" -> OkSeqHdr(r)
            [] r.k = "lit" -> OkLit(r)
            [] r.k = "litenc" -> OkLitEnc(r)
            [] r.k = "block" -> OkBlock(r)
